@@ -102,8 +102,8 @@ func DecompressLZW(src *Buffer, skip uint) (dst *Buffer, err error) {
 	lenUnpacked := int(binary.BigEndian.Uint32(source[:4]))
 	reader := lzw.NewReader(bytes.NewBuffer(source[4:]), lzw.LSB, 8)
 	dst = TakeBuffer()
-	dst.Allocate(lenUnpacked)
-	if err := decompress(dst.B, reader); err != nil {
+	if err := decompress(dst, reader, lenUnpacked); err != nil {
+		ReleaseBuffer(dst)
 		return nil, err
 	}
 	return
@@ -119,8 +119,8 @@ func DecompressZLIB(src *Buffer, skip uint) (dst *Buffer, err error) {
 		return nil, err
 	}
 	dst = TakeBuffer()
-	dst.Allocate(lenUnpacked)
-	if err := decompress(dst.B, reader); err != nil {
+	if err := decompress(dst, reader, lenUnpacked); err != nil {
+		ReleaseBuffer(dst)
 		return nil, err
 	}
 	return
@@ -136,30 +136,38 @@ func DecompressGZIP(src *Buffer, skip uint) (dst *Buffer, err error) {
 		return nil, err
 	}
 	dst = TakeBuffer()
-	dst.Allocate(lenUnpacked)
-
-	if err := decompress(dst.B, reader); err != nil {
+	if err := decompress(dst, reader, lenUnpacked); err != nil {
+		ReleaseBuffer(dst)
 		return nil, err
 	}
 	return
 }
 
-func decompress(dst []byte, reader io.Reader) error {
-	total := 0
+// decompress unpacks the data into dst. The declared size (lenUnpacked) comes from
+// the peer, so it is used for the validation only: the buffer grows with the data
+// that has been really unpacked.
+func decompress(dst *Buffer, reader io.Reader, lenUnpacked int) error {
+	idle := 0
 	for {
-		n, e := reader.Read(dst[total:])
-		total += n
+		if dst.Len() > lenUnpacked {
+			return fmt.Errorf("unpacked size mismatch")
+		}
+		n, e := dst.ReadDataFrom(reader, 0)
 		if e == io.EOF {
 			break
-		}
-		if n == 0 {
-			return fmt.Errorf("dst buffer too small")
 		}
 		if e != nil {
 			return e
 		}
+		if n > 0 {
+			idle = 0
+			continue
+		}
+		if idle++; idle > 100 {
+			return io.ErrNoProgress
+		}
 	}
-	if total != len(dst) {
+	if dst.Len() != lenUnpacked {
 		return fmt.Errorf("unpacked size mismatch")
 	}
 
